@@ -230,6 +230,43 @@ theorem deviation_eq (es : EarlyStopping ℝ) (p : ℕ) (hp : es.patience = (p :
       refine ⟨_, by simp [EarlyStopping.deviation, hc, EarlyStopping.varianceScaledAbsChange, hchange, hvar, Num.npSqrt, hn, Num.div, hb]; rfl, ?_⟩
       simp [extVal, Num.abs, Num.sub, devSpec, histOf, not_le.mpr hpos]
 
+/-- the extended value of a generated float: the non-finite value ↦ `⊤` -/
+def flExt : QV.Gen.Fl ℝ → WithTop ℝ
+  | none => ⊤
+  | some x => (x : WithTop ℝ)
+
+theorem flExt_devFl (d : Option (Num ℝ)) : flExt (devFl d) = extVal d := by
+  cases d <;> rfl
+
+/-- **C18 (translator tie, composed).** The deviation formulas TRANSLATED FROM THE PYTHON SOURCE
+(`genDeviation`: QV/Gen/EarlyStopping.lean, regenerated from the checked tree on every run), applied to the getters of an
+evaluator that monitors the quantity, compute the DOCUMENTED deviation between `M_{t−p}` and `M_t` of the class docstring —
+`⊤` exactly in the degenerate cases (zero reference, non-positive variance) — for every history with `t ≥ p` evaluations. -/
+theorem C18_gen_deviation_is_documented (es : EarlyStopping ℝ) (p : ℕ) (hp : es.patience = (p : Int))
+    {Mof Vof : W → Num ℝ} {ev : AnyEval W ℝ} {pts : List (Int × W)}
+    (h : Monitors es.quantityName Mof Vof es.criterion ev pts)
+    (t : ℕ) (ht : pts.length = t + 1) (hpt : p ≤ t) :
+    flExt (genDeviation es ev) = devSpec es.criterion ((histOf Mof Vof pts)[t - p]'(by simp [histOf]; omega))
+        ((histOf Mof Vof pts)[t]'(by simp [histOf]; omega)) := by
+  obtain ⟨d, hd, hspec⟩ := deviation_eq es p hp h t ht hpt
+  have hk1 : t - p < pts.length := by omega
+  have hidx : (-es.patience - 1 : Int) = ((t - p : ℕ) : Int) - pts.length := by
+    rw [hp, ht]; omega
+  have hv1 := monitors_value h (t - p) hk1
+  rw [← hidx] at hv1
+  have hv2 := monitors_value_last h t ht
+  have hvar : es.criterion = .variance →
+      ev.variance es.quantityName (some (-es.patience - 1)) = .ok (Vof pts[t - p].2) := by
+    intro hc
+    rw [hc] at h
+    have := monitors_variance h (t - p) hk1
+    rwa [← hidx] at this
+  obtain ⟨d', hd', hgen⟩ := C18_gen_deviation_eq_model es ev _ _ _ hv1 hv2 hvar
+  have hdd : d = d' := by
+    have := hd.symm.trans hd'
+    injection this
+  rw [← hgen, ← hdd, flExt_devFl, hspec]
+
 /-- **C18 never-self.** With patience `p ≥ 1` and `t ≥ p`, the change the model computes is
 `M_{t−p} − M_t` for the evaluations at positions `t − p` and `t` of the history — two DIFFERENT positions,
 `p` apart; the current evaluation is never compared with itself. -/
